@@ -65,27 +65,34 @@ theorem blank_refLines_tail (i : Nat) (r : RRef) (ℓ : RefLayout) : ∀ l ∈ (
   · exact blank_optBlock _ _ _ l hl
   · exact blank_optBlock _ _ _ l hl
 
-theorem blank_qualLines (k v : Str) (bs : List Nat) : ∀ l ∈ qualLines k v bs, Blank l := by
+theorem blank_qualLines (k v : Str) (bs : List Nat) (st : Nat) : ∀ l ∈ qualLines k v bs st, Blank l := by
   unfold qualLines
-  cases closeLast (valueChunks k v bs) with
-  | nil => intro l hl; simp [hang] at hl; subst hl; exact Or.inr ⟨_, by simp [spaces, List.replicate_succ]; rfl⟩
-  | cons c cs =>
-    intro l hl
-    simp only [hang, List.mem_cons] at hl
-    rcases hl with rfl | hl
-    · exact Or.inr ⟨spaces 20 ++ (c!"/" ++ k ++ c!"=\"" ++ c), by simp [spaces, List.replicate_succ]⟩
-    · exact blank_map_spaces 20 _ l hl
+  split
+  · intro l hl; simp at hl; subst hl
+    exact Or.inr ⟨spaces 20 ++ (c!"/" ++ k), by simp [spaces, List.replicate_succ]⟩
+  · split
+    · intro l hl; simp at hl; subst hl
+      exact Or.inr ⟨spaces 20 ++ (c!"/" ++ k ++ c!"=" ++ v), by simp [spaces, List.replicate_succ]⟩
+    · cases closeLast (valueChunks k v bs) with
+      | nil => intro l hl; simp [hang] at hl; subst hl; exact Or.inr ⟨_, by simp [spaces, List.replicate_succ]; rfl⟩
+      | cons c cs =>
+        intro l hl
+        simp only [hang, List.mem_cons] at hl
+        rcases hl with rfl | hl
+        · exact Or.inr ⟨spaces 20 ++ (c!"/" ++ k ++ c!"=\"" ++ c), by simp [spaces, List.replicate_succ]⟩
+        · exact blank_map_spaces 20 _ l hl
 
-theorem blank_qualsLines (qs : List (Str × Str)) (ls : List (List Nat)) : ∀ l ∈ qualsLines qs ls, Blank l := by
-  induction qs generalizing ls with
+theorem blank_qualsLines (qs : List (Str × Str)) (ls : List (List Nat)) (sts : List Nat) :
+    ∀ l ∈ qualsLines qs ls sts, Blank l := by
+  induction qs generalizing ls sts with
   | nil => simp [qualsLines]
   | cons q r ih =>
     obtain ⟨k, v⟩ := q
     rw [qualsLines_cons]
     intro l hl
     rcases List.mem_append.mp hl with hl | hl
-    · exact blank_qualLines k v _ l hl
-    · exact ih _ l hl
+    · exact blank_qualLines k v _ _ l hl
+    · exact ih _ _ l hl
 
 theorem blank_featsLines (fs : List RFeature) (ls : List FeatLayout) : ∀ l ∈ featsLines fs ls, Blank l := by
   induction fs generalizing ls with
@@ -101,7 +108,7 @@ theorem blank_featsLines (fs : List RFeature) (ls : List FeatLayout) : ∀ l ∈
       · exact Or.inr ⟨spaces 4 ++ f.key ++ spaces (21 - (5 + f.key.length)) ++ lc0, by
           simp [fLine, padRight, spaces, List.replicate_succ, List.append_assoc]; omega⟩
       · exact blank_map_spaces 20 _ l hl
-      · exact blank_qualsLines _ _ l hl
+      · exact blank_qualsLines _ _ _ l hl
     · exact ih _ l hl
 
 /-! ### sequence lines start with a blank as long as the counter has at most 8 digits -/
@@ -315,16 +322,26 @@ theorem featsLines_length (fs : List RFeature) (ls : List FeatLayout) : fs.lengt
     have := ih ls.tail
     simp only [List.length_cons, List.length_append]; omega
 
-/-- FEATURES: the whole feature table -/
-theorem getFeatures_table (fs : List RFeature) (ls : List FeatLayout) (stop : Str) (B : List Str)
-    (hw : ∀ f ∈ fs, wfFeature f = true) (hm : quickMetaCheck stop = .ok true) (hs : FStop stop) :
-    getFeatures (featsLines fs ls ++ stop :: B) = .ok (fs.map toFeature) := by
+/-- FEATURES: the whole feature table, as the parser's map keeps the qualifiers (repeated keys: last wins) -/
+theorem getFeatures_table_loose (fs : List RFeature) (ls : List FeatLayout) (stop : Str) (B : List Str)
+    (hw : ∀ f ∈ fs, wfFeatureLoose f = true) (hm : quickMetaCheck stop = .ok true) (hs : FStop stop) :
+    getFeatures (featsLines fs ls ++ stop :: B) = .ok (fs.map toFeatureM) := by
   unfold getFeatures
   have := featLoop_feats (featsLines fs ls ++ stop :: B) stop B hm hs fs ls [] []
     ((featsLines fs ls ++ stop :: B).length + 1) (by simp) hw (by
       have := featsLines_length fs ls
       simp only [List.length_append, List.length_cons]; omega)
   simpa using this
+
+/-- FEATURES: with pairwise distinct qualifier keys every value is kept -/
+theorem getFeatures_table (fs : List RFeature) (ls : List FeatLayout) (stop : Str) (B : List Str)
+    (hw : ∀ f ∈ fs, wfFeature f = true) (hm : quickMetaCheck stop = .ok true) (hs : FStop stop) :
+    getFeatures (featsLines fs ls ++ stop :: B) = .ok (fs.map toFeature) := by
+  rw [getFeatures_table_loose fs ls stop B (fun f hf => (wfFeature_loose (hw f hf)).1) hm hs]
+  congr 1
+  apply List.map_congr_left
+  intro f hf
+  exact toFeatureM_eq (wfFeature_loose (hw f hf)).2
 
 /-! ### extra keyword blocks -/
 
@@ -474,28 +491,150 @@ theorem locusLine_kw (l : RLocus) (n : Nat) (ℓ : RecLayout) :
 
 /-! ### the whole record -/
 
-theorem KwOK_std : KwOK c!"DEFINITION" ∧ KwOK c!"ACCESSION" ∧ KwOK c!"VERSION" ∧ KwOK c!"KEYWORDS" :=
+theorem KwOK_std : KwOK c!"DEFINITION" ∧ KwOK c!"ACCESSION" ∧ KwOK c!"VERSION" ∧ KwOK c!"KEYWORDS" ∧ KwOK c!"SOURCE" :=
   ⟨⟨by decide, by decide, by decide⟩, ⟨by decide, by decide, by decide⟩, ⟨by decide, by decide, by decide⟩,
-   ⟨by decide, by decide, by decide⟩⟩
+   ⟨by decide, by decide, by decide⟩, ⟨by decide, by decide, by decide⟩⟩
 
-/-- the main loop over the lines of a laid-out record (followed by empty lines) -/
-theorem parseLoop_layout (r : GbRec) (ℓ : RecLayout) (tail : List Str) (h : wf r = true) (ht : ∀ l ∈ tail, l = []) :
-    parseLoop (layout r ℓ ++ tail) {} = .ok (toSequence r) := by
-  simp only [wf, Bool.and_eq_true, decide_eq_true_eq, List.all_eq_true] at h
+/-! ### optional blocks -/
+
+theorem MetaHead_mblock (om : Bool) (kw t : Str) (bs : List Nat) (X : List Str) (hkw : KwOK kw) (hX : MetaHead X) :
+    MetaHead (mblock om kw t bs ++ X) := by
+  unfold mblock; split
+  · exact hX
+  · exact block_head kw t bs X hkw
+
+theorem MetaHead_sourceBlock (om : Bool) (src org : Str) (bs bo : List Nat) (X : List Str) (hX : MetaHead X) :
+    MetaHead (sourceBlock om src org bs bo ++ X) := by
+  unfold sourceBlock; split
+  · exact hX
+  · rw [List.append_assoc]; exact block_head c!"SOURCE" src bs _ KwOK_std.2.2.2.2
+
+/-- an optional keyword block: written, it sets the field; left out (its text is empty), the field keeps
+its initial empty value — `h0`: setting the field to the empty text does not change the state -/
+theorem parseLoop_mblock (om : Bool) (kw : Str) (upd : Sequence → Str → Sequence) (hkw : KwOK kw)
+    (hstep : ∀ (line : Str) (sub : List Str) (s : Sequence), trimSpace (headOf (split line c!" ")) = kw →
+      parseStep line sub s = (joinSubLines (split line c!" ") sub).bind fun v => .ok (upd s v))
+    (t : Str) (bs : List Nat) (X : List Str) (s : Sequence) (ht : isText t = true) (hX : MetaHead X)
+    (h0 : upd s [] = s) :
+    parseLoop (mblock om kw t bs ++ X) s = parseLoop X (upd s t) := by
+  unfold mblock; split
+  · rename_i h; rw [h.2, h0]; rfl
+  · exact parseLoop_block kw upd hkw hstep t bs X s ht hX
+
+theorem parseLoop_sourceBlock (om : Bool) (src org : Str) (bs bo : List Nat) (X : List Str) (s : Sequence)
+    (hs : isText src = true) (ho : isText org = true) (hX : MetaHead X)
+    (h0 : ({ s with md := { s.md with source := [], organism := [] } } : Sequence) = s) :
+    parseLoop (sourceBlock om src org bs bo ++ X) s
+      = parseLoop X { s with md := { s.md with source := src, organism := org } } := by
+  unfold sourceBlock; split
+  · rename_i h; rw [h.2.1, h.2.2, h0]; rfl
+  · rw [List.append_assoc]; exact parseLoop_source src org bs bo X s hs ho hX
+
+/-! ### the slots of the extra keyword blocks -/
+
+theorem distinct_iff_nodup (l : List Str) : distinct l = true ↔ l.Nodup := by
+  induction l with
+  | nil => simp [distinct]
+  | cons a r ih =>
+    simp only [distinct, Bool.and_eq_true, Bool.not_eq_true', List.nodup_cons, ih]
+    constructor
+    · rintro ⟨h1, h2⟩; exact ⟨by intro hm; simp [hm] at h1, h2⟩
+    · rintro ⟨h1, h2⟩; exact ⟨by simpa using h1, h2⟩
+
+/-- a slice of a list with distinct keys: its keys are distinct and none occurs before the slice -/
+theorem slice_keys (l : List (Str × Str)) (m c : Nat) (hd : distinct (l.map (·.1)) = true) :
+    distinct (((l.drop m).take c).map (·.1)) = true ∧ ∀ e ∈ (l.drop m).take c, e.1 ∉ (l.take m).map (·.1) := by
+  rw [distinct_iff_nodup] at hd ⊢
+  have hsplit : l.map (·.1) = (l.take m).map (·.1) ++ (l.drop m).map (·.1) := by
+    rw [← List.map_append, List.take_append_drop]
+  rw [hsplit, List.nodup_append] at hd
+  obtain ⟨_, h2, h3⟩ := hd
+  constructor
+  · exact h2.sublist ((List.take_sublist c _).map _)
+  · intro e he hmem
+    exact h3 _ hmem _ (List.mem_map.mpr ⟨e, List.mem_of_mem_take he, rfl⟩) rfl
+
+theorem off_succ (cs : List Nat) (k : Nat) : off cs (k + 1) = off cs k + cs.getD k 0 := rfl
+
+theorem MetaHead_extraSlot (r : GbRec) (ℓ : RecLayout) (k : Nat) (X : List Str)
+    (he : ∀ e ∈ r.extras, isExtraKey e.1 = true) (hX : MetaHead X) : MetaHead (extraSlot r ℓ k ++ X) :=
+  MetaHead_extras _ _ X (fun e hm => he e (List.mem_of_mem_drop (List.mem_of_mem_take hm))) hX
+
+theorem MetaHead_extraRest (r : GbRec) (ℓ : RecLayout) (X : List Str)
+    (he : ∀ e ∈ r.extras, isExtraKey e.1 = true) (hX : MetaHead X) : MetaHead (extraRest r ℓ ++ X) :=
+  MetaHead_extras _ _ X (fun e hm => he e (List.mem_of_mem_drop hm)) hX
+
+/-- slot `k`: the blocks written there are added to `Other`, which then holds the first
+`off (k+1)` extra blocks of the record -/
+theorem parseLoop_extraSlot (r : GbRec) (ℓ : RecLayout) (k : Nat) (X : List Str) (s : Sequence)
+    (he : ∀ e ∈ r.extras, isExtraKey e.1 = true ∧ isText e.2 = true) (hd : distinct (r.extras.map (·.1)) = true)
+    (hs : s.md.other = r.extras.take (off ℓ.extraCuts k)) (hX : MetaHead X) :
+    parseLoop (extraSlot r ℓ k ++ X) s
+      = parseLoop X { s with md := { s.md with other := r.extras.take (off ℓ.extraCuts (k + 1)) } } := by
+  obtain ⟨h1, h2⟩ := slice_keys r.extras (off ℓ.extraCuts k) (ℓ.extraCuts.getD k 0) hd
+  unfold extraSlot
+  rw [parseLoop_extras _ _ X s (fun e hm => he e (List.mem_of_mem_drop (List.mem_of_mem_take hm))) h1
+    (by rw [hs]; exact h2) hX, hs, off_succ, List.take_add]
+
+theorem parseLoop_extraRest (r : GbRec) (ℓ : RecLayout) (X : List Str) (s : Sequence)
+    (he : ∀ e ∈ r.extras, isExtraKey e.1 = true ∧ isText e.2 = true) (hd : distinct (r.extras.map (·.1)) = true)
+    (hs : s.md.other = r.extras.take (off ℓ.extraCuts 6)) (hX : MetaHead X) :
+    parseLoop (extraRest r ℓ ++ X) s = parseLoop X { s with md := { s.md with other := r.extras } } := by
+  have := slice_keys r.extras (off ℓ.extraCuts 6) (r.extras.length) hd
+  have hfull : (r.extras.drop (off ℓ.extraCuts 6)).take r.extras.length = r.extras.drop (off ℓ.extraCuts 6) :=
+    List.take_of_length_le (by simp)
+  rw [hfull] at this
+  obtain ⟨h1, h2⟩ := this
+  unfold extraRest
+  rw [parseLoop_extras _ _ X s (fun e hm => he e (List.mem_of_mem_drop hm)) h1 (by rw [hs]; exact h2) hX, hs,
+    List.take_append_drop]
+
+/-! ### the whole record -/
+
+/-- what the parser's maps keep of a record: as `toSequence`, with `toFeatureM` for the features -/
+def toSequenceM (r : GbRec) : Sequence := { toSequence r with features := r.features.map toFeatureM }
+
+theorem wf_loose {r : GbRec} (h : wf r = true) :
+    wfLoose r = true ∧ ∀ f ∈ r.features, distinct (f.quals.map (·.1)) = true := by
+  simp only [wf, wfLoose, Bool.and_eq_true, List.all_eq_true] at h ⊢
+  obtain ⟨⟨⟨h1, hf⟩, h2⟩, h3⟩ := h
+  exact ⟨⟨⟨⟨h1, fun f hm => (wfFeature_loose (hf f hm)).1⟩, h2⟩, h3⟩, fun f hm => (wfFeature_loose (hf f hm)).2⟩
+
+theorem toSequenceM_eq {r : GbRec} (h : ∀ f ∈ r.features, distinct (f.quals.map (·.1)) = true) :
+    toSequenceM r = toSequence r := by
+  simp only [toSequenceM, toSequence]
+  congr 1
+  apply List.map_congr_left
+  intro f hf; exact toFeatureM_eq (h f hf)
+
+/-- the main loop over the lines of a laid-out record (followed by empty lines), for every record of the
+quantifier, repeated qualifier keys included -/
+theorem parseLoop_layout_loose (r : GbRec) (ℓ : RecLayout) (tail : List Str) (h : wfLoose r = true)
+    (ht : ∀ l ∈ tail, l = []) :
+    parseLoop (layout r ℓ ++ tail) {} = .ok (toSequenceM r) := by
+  simp only [wfLoose, Bool.and_eq_true, decide_eq_true_eq, List.all_eq_true] at h
   obtain ⟨⟨⟨⟨⟨⟨⟨⟨⟨⟨⟨⟨hlocus, hdef⟩, hacc⟩, hver⟩, hkey⟩, hsrc⟩, horg⟩, hrefs⟩, hex⟩, hexd⟩, hfeat⟩, hseq⟩, hlen⟩ := h
-  obtain ⟨k1, k2, k3, k4⟩ := KwOK_std
+  have hex' : ∀ e ∈ r.extras, isExtraKey e.1 = true ∧ isText e.2 = true := fun e he => hex e he
+  have hexk : ∀ e ∈ r.extras, isExtraKey e.1 = true := fun e he => (hex e he).1
+  obtain ⟨k1, k2, k3, k4, _⟩ := KwOK_std
   obtain ⟨o1, o2, o3⟩ := originHead_facts ℓ
+  have hfh : trimSpace (headOf (split featuresHeader c!" ")) = c!"FEATURES" := by decide
   -- the sections, from the end
-  have hX6 : MetaHead (featuresHeader ::
+  have hF : MetaHead (featuresHeader ::
       (featsLines r.features ℓ.feats ++ originHead ℓ :: (originLines r.seq ℓ.blockLen ℓ.perLine ++ c!"//" :: tail))) :=
     ⟨_, _, rfl, by decide⟩
-  have hfh : trimSpace (headOf (split featuresHeader c!" ")) = c!"FEATURES" := by decide
-  have hX5 := MetaHead_extras r.extras ℓ.extras _ (fun e he => (hex e he).1) hX6
-  have hX4 := MetaHead_refs 0 r.refs ℓ.refs _ hX5
-  have hX3 := block_head c!"SOURCE" r.source ℓ.source
-    (block c!"  ORGANISM" r.organism ℓ.organism ++ (refsLines 0 r.refs ℓ.refs ++ (extrasLines r.extras ℓ.extras ++
-      featuresHeader :: (featsLines r.features ℓ.feats ++ originHead ℓ ::
-        (originLines r.seq ℓ.blockLen ℓ.perLine ++ c!"//" :: tail))))) ⟨by decide, by decide, by decide⟩
+  have hE6 := MetaHead_extraRest r ℓ _ hexk hF
+  have hR := MetaHead_refs 0 r.refs ℓ.refs _ hE6
+  have hE5 := MetaHead_extraSlot r ℓ 5 _ hexk hR
+  have hS := MetaHead_sourceBlock ℓ.omitSource r.source r.organism ℓ.source ℓ.organism _ hE5
+  have hE4 := MetaHead_extraSlot r ℓ 4 _ hexk hS
+  have hK := MetaHead_mblock ℓ.omitKeywords c!"KEYWORDS" r.keywords ℓ.keywords _ k4 hE4
+  have hE3 := MetaHead_extraSlot r ℓ 3 _ hexk hK
+  have hV := MetaHead_mblock ℓ.omitVersion c!"VERSION" r.version ℓ.version _ k3 hE3
+  have hE2 := MetaHead_extraSlot r ℓ 2 _ hexk hV
+  have hA := MetaHead_mblock ℓ.omitAccession c!"ACCESSION" r.accession ℓ.accession _ k2 hE2
+  have hE1 := MetaHead_extraSlot r ℓ 1 _ hexk hA
+  have hD := MetaHead_mblock ℓ.omitDefinition c!"DEFINITION" r.definition ℓ.definition _ k1 hE1
   unfold layout
   simp only [List.append_assoc, List.cons_append, List.nil_append, List.singleton_append]
   rw [show (if ℓ.originTrail = true then c!"ORIGIN      " else c!"ORIGIN") = originHead ℓ from rfl]
@@ -503,22 +642,28 @@ theorem parseLoop_layout (r : GbRec) (ℓ : RecLayout) (tail : List Str) (h : wf
   simp only [parseLoop]
   rw [parseStep_locus _ _ _ (locusLine_kw r.locus r.seq.length ℓ), parseLocus_locusLine r.locus r.seq.length ℓ hlocus]
   simp only [Outcome.bind_ok']
-  -- DEFINITION .. KEYWORDS
-  rw [parseLoop_block c!"DEFINITION" (fun s v => { s with md := { s.md with definition := v } }) k1
-    (fun line sub s hq => parseStep_definition line sub s hq) _ _ _ _ hdef (block_head _ _ _ _ k2)]
-  rw [parseLoop_block c!"ACCESSION" (fun s v => { s with md := { s.md with accession := v } }) k2
-    (fun line sub s hq => parseStep_accession line sub s hq) _ _ _ _ hacc (block_head _ _ _ _ k3)]
-  rw [parseLoop_block c!"VERSION" (fun s v => { s with md := { s.md with version := v } }) k3
-    (fun line sub s hq => parseStep_version line sub s hq) _ _ _ _ hver (block_head _ _ _ _ k4)]
-  rw [parseLoop_block c!"KEYWORDS" (fun s v => { s with md := { s.md with keywords := v } }) k4
-    (fun line sub s hq => parseStep_keywords line sub s hq) _ _ _ _ hkey hX3]
-  -- SOURCE / ORGANISM, REFERENCE, extra keywords
-  rw [parseLoop_source _ _ _ _ _ _ hsrc horg hX4]
-  rw [parseLoop_refs r.refs 0 ℓ.refs _ _ hrefs hX5]
-  rw [parseLoop_extras r.extras ℓ.extras _ _ (fun e he => hex e he) hexd (by simp) hX6]
+  -- slot 0, DEFINITION, slot 1, ACCESSION, slot 2, VERSION, slot 3, KEYWORDS
+  rw [parseLoop_extraSlot r ℓ 0 _ _ hex' hexd rfl hD]
+  rw [parseLoop_mblock _ c!"DEFINITION" (fun s v => { s with md := { s.md with definition := v } }) k1
+    (fun line sub s hq => parseStep_definition line sub s hq) _ _ _ _ hdef hE1 rfl]
+  rw [parseLoop_extraSlot r ℓ 1 _ _ hex' hexd rfl hA]
+  rw [parseLoop_mblock _ c!"ACCESSION" (fun s v => { s with md := { s.md with accession := v } }) k2
+    (fun line sub s hq => parseStep_accession line sub s hq) _ _ _ _ hacc hE2 rfl]
+  rw [parseLoop_extraSlot r ℓ 2 _ _ hex' hexd rfl hV]
+  rw [parseLoop_mblock _ c!"VERSION" (fun s v => { s with md := { s.md with version := v } }) k3
+    (fun line sub s hq => parseStep_version line sub s hq) _ _ _ _ hver hE3 rfl]
+  rw [parseLoop_extraSlot r ℓ 3 _ _ hex' hexd rfl hK]
+  rw [parseLoop_mblock _ c!"KEYWORDS" (fun s v => { s with md := { s.md with keywords := v } }) k4
+    (fun line sub s hq => parseStep_keywords line sub s hq) _ _ _ _ hkey hE4 rfl]
+  -- slot 4, SOURCE / ORGANISM, slot 5, REFERENCE, the remaining extra blocks
+  rw [parseLoop_extraSlot r ℓ 4 _ _ hex' hexd rfl hS]
+  rw [parseLoop_sourceBlock _ _ _ _ _ _ _ hsrc horg hE5 rfl]
+  rw [parseLoop_extraSlot r ℓ 5 _ _ hex' hexd rfl hR]
+  rw [parseLoop_refs r.refs 0 ℓ.refs _ _ hrefs hE6]
+  rw [parseLoop_extraRest r ℓ _ _ hex' hexd rfl hF]
   -- FEATURES
   simp only [parseLoop]
-  rw [parseStep_features _ _ _ hfh, getFeatures_table r.features ℓ.feats _ _ hfeat o2 o3]
+  rw [parseStep_features _ _ _ hfh, getFeatures_table_loose r.features ℓ.feats _ _ hfeat o2 o3]
   simp only [Outcome.bind_ok']
   rw [parseLoop_blank _ _ _ (blank_featsLines r.features ℓ.feats)]
   -- ORIGIN
@@ -527,6 +672,12 @@ theorem parseLoop_layout (r : GbRec) (ℓ : RecLayout) (tail : List Str) (h : wf
   rw [parseStep_origin _ _ _ o1, getSequence_end r.seq _ _ tail hseq' ht]
   simp only [Outcome.bind_ok']
   rw [parseLoop_end r.seq _ _ tail _ hlen ht]
-  simp [toSequence]
+  simp [toSequenceM, toSequence]
+
+/-- with pairwise distinct qualifier keys: exactly what the record states -/
+theorem parseLoop_layout (r : GbRec) (ℓ : RecLayout) (tail : List Str) (h : wf r = true) (ht : ∀ l ∈ tail, l = []) :
+    parseLoop (layout r ℓ ++ tail) {} = .ok (toSequence r) := by
+  obtain ⟨hl, hd⟩ := wf_loose h
+  rw [parseLoop_layout_loose r ℓ tail hl ht, toSequenceM_eq hd]
 
 end PolyVerif.Lemmas.Genbank
